@@ -1,13 +1,17 @@
 package e2
 
 import (
+	"crypto/sha256"
 	"fmt"
+	"os"
+	"path/filepath"
 	"sort"
 	"strings"
 	"testing"
 	"time"
 
 	"github.com/vx-labs/mqtt-protocol/packet"
+	"github.com/vx-labs/wasp/v4/wasp/auth"
 
 	"verif/internal/vk"
 )
@@ -38,7 +42,11 @@ func c17alphabet() []string {
 		// a QoS 2 publish started now and released later (other events happen while the message waits in the broker)
 		out = append(out, t+":q2start:t", t+":q2release")
 		out = append(out, t+":willdrop", t+":dupid")
+		// a QoS 1 subscription whose deliveries are never acknowledged: every copy that follows (the broker sends the
+		// message again after each acknowledgement timeout) must name the topic the way the first one did
+		out = append(out, t+":sub1:#")
 	}
+	out = append(out, "X:wait") // 4 s pass (both tenants' unacknowledged deliveries time out); kept in the projected run
 	return out
 }
 
@@ -50,15 +58,17 @@ func c17paths() []c17path {
 	var rec func(cur []string)
 	rec = func(cur []string) {
 		if len(cur) > 0 {
-			hasA, hasB := false, false
+			hasA, hasB, hasX := false, false, false
 			for _, e := range cur {
 				if e[0] == 'A' {
 					hasA = true
-				} else {
+				} else if e[0] == 'B' {
 					hasB = true
+				} else {
+					hasX = true
 				}
 			}
-			if hasA && hasB { // paths without interference are only run as projections
+			if hasA && (hasB || hasX) { // other paths without interference are only run as projections
 				seqs = append(seqs, append([]string{}, cur...))
 			}
 		}
@@ -126,9 +136,15 @@ func runC17(t *testing.T, p c17path, events []string, direct func(sig, msg strin
 		// identifiers and payloads count the tenant's own events, so they are the same in the projected run
 		k := perTenant[tn]
 		perTenant[tn]++
+		if tn == 'X' {
+			w.Idle(4 * time.Second)
+			continue
+		}
 		switch parts[1] {
 		case "sub":
 			c.Subscribe(int32(10+k), 0, parts[2])
+		case "sub1":
+			c.Subscribe(int32(10+k), 1, parts[2])
 		case "pub":
 			payload := fmt.Sprintf("%c:%d", tn, k)
 			published[tn][parts[2]+"|"+payload] = true
@@ -183,7 +199,19 @@ func runC17(t *testing.T, p c17path, events []string, direct func(sig, msg strin
 	w.Step()
 	obs.alive = !a.BrokerClosed() && w.Node(1).Local.Get(a.SessionID) != nil
 	obs.ping = a.Count("PINGRESP") == 1
+	// copies of a QoS 1 delivery: how many were sent by now, and under which packet identifier, depends on what else the
+	// node delivered and when (the other tenant's traffic legitimately shifts both); which topic and payload they carry
+	// does not, so each distinct (topic, payload) of a QoS 1 delivery is observed once
+	seenQ1 := map[string]bool{}
 	for _, r := range a.Received() {
+		if pk, ok := r.Pkt.(*packet.Publish); ok && pk.Header.Qos > 0 {
+			s := fmt.Sprintf("PUBLISH(topic=%s payload=%s qos=%d retain=%v)", pk.Topic, pk.Payload, pk.Header.Qos, pk.Header.Retain)
+			if !seenQ1[s] {
+				seenQ1[s] = true
+				obs.inbox = append(obs.inbox, s)
+			}
+			continue
+		}
 		obs.inbox = append(obs.inbox, r.String())
 	}
 	sort.Strings(obs.inbox)
@@ -220,7 +248,7 @@ func TestC17MountPoints(t *testing.T) {
 			})
 			var onlyA []string
 			for _, e := range p.Events {
-				if e[0] == 'A' {
+				if e[0] == 'A' || e[0] == 'X' {
 					onlyA = append(onlyA, e)
 				}
 			}
@@ -260,7 +288,7 @@ func TestC17MountPoints(t *testing.T) {
 		},
 		func(i int) any { return paths[i] },
 		func(rep *vk.Report) {
-			rep.Rule = "paths = event sequences (both tenants involved) over per-tenant {subscribe #|+|+/t|t|t/#, publish t|t/u|m2/t x retain, will-bearing drop, connect with the other tenant's client id} for mount pairs (m1,m2), (m1,m10), (m10,m1); each path is executed twice: in full and with tenant B's events deleted; non-trivial = paths where tenant A received at least one PUBLISH"
+			rep.Rule = "paths = event sequences (both tenants involved) over per-tenant {subscribe #|+|+/t|t|t/#, publish t|t/u|m2/t x retain, will-bearing drop, connect with the other tenant's client id, QoS 1 subscribe # never acknowledging} plus a 4 s wait for mount pairs (m1,m2), (m1,m10), (m10,m1); each path is executed twice: in full and with tenant B's events deleted; non-trivial = paths where tenant A received at least one PUBLISH"
 			rep.Bounds["depth"] = vk.Pick(3, 4)
 			rep.Floor("tenant_a_received_publishes", 30, rep.Nontrivial)
 		})
@@ -368,5 +396,148 @@ func TestC17NodeFailure(t *testing.T) {
 		func(rep *vk.Report) {
 			rep.Rule = "2-3 nodes; node 1 hosts 1-2 will-bearing sessions of each of two tenants (mount pairs (m1,m2), (m1,m10), (m10,m1)), created alternately; node 1 fails; each tenant's '#' watcher on node 2 must receive exactly its own tenant's wills once each, under the names the clients wrote"
 			rep.Floor("paths", 10, rep.Nontrivial)
+		})
+}
+
+// TestC17CredentialFile: tenants are told apart by the mount point their credentials-file entry names. Every order of
+// four entries (two tenants with a mount point, one entry without the third field, one with an empty third field): each
+// user then publishes a retained and a live message and subscribes to '#'; a user must see exactly the messages of the
+// users that share its mount point (the two entries without a mount point share the default one).
+func TestC17CredentialFile(t *testing.T) {
+	type entry struct{ user, mount, form string }
+	entries := []entry{{"t1", "m1", "named"}, {"t2", "m2", "named"}, {"d1", auth.DefaultMountPoint, "two-fields"}, {"d2", auth.DefaultMountPoint, "empty-third-field"}}
+	type cp struct {
+		Order []int `json:"order_of_entries"`
+	}
+	var paths []cp
+	var perm func(cur []int, used int)
+	perm = func(cur []int, used int) {
+		if len(cur) == len(entries) {
+			paths = append(paths, cp{append([]int{}, cur...)})
+			return
+		}
+		for k := range entries {
+			if used&(1<<k) == 0 {
+				perm(append(cur, k), used|1<<k)
+			}
+		}
+	}
+	perm(nil, 0)
+	scratch := os.Getenv("VERIF_SCRATCH")
+	if scratch == "" {
+		scratch = os.TempDir()
+	}
+	fp := func(s string) string { return fmt.Sprintf("%x", sha256.Sum256([]byte(s))) }
+	RunPaths(t, "C17", "C17/credential-file-mount-points", "TestC17CredentialFile", len(paths), vk.Pick(4*time.Minute, 10*time.Minute),
+		func(t *testing.T, i int, rep *vk.Report) {
+			p := paths[i]
+			file := filepath.Join(scratch, fmt.Sprintf("c17cred-%d-%d.csv", os.Getpid(), i))
+			var lines []string
+			for _, k := range p.Order {
+				e := entries[k]
+				switch e.form {
+				case "named":
+					lines = append(lines, e.user+":"+fp("pw-"+e.user)+":"+e.mount)
+				case "two-fields":
+					lines = append(lines, e.user+":"+fp("pw-"+e.user))
+				default:
+					lines = append(lines, e.user+":"+fp("pw-"+e.user)+":")
+				}
+			}
+			os.WriteFile(file, []byte(strings.Join(lines, "\n")+"\n"), 0o600)
+			defer os.Remove(file)
+			h, err := auth.FileHandler(file)
+			if err != nil {
+				rep.Violate(vk.Violation{Sig: "c17-credential-file-not-loadable", Msg: fmt.Sprintf("%v: %v", lines, err), Replay: p})
+				return
+			}
+			AuthOverride = h
+			defer func() { AuthOverride = nil }()
+			RunBubble(t, fmt.Sprintf("p%d", i), func(t *testing.T) {
+				w := NewWorld(t, 1)
+				defer w.Close()
+				clients := map[string]*Client{}
+				// the retained messages are published first, the subscriptions come afterwards (replay), then live messages
+				for _, e := range entries {
+					c := w.NewClient(e.user, 1, AckAll)
+					if c.Connect(ConnectOpts{ClientID: "device", KeepAlive: 600, User: e.user, Password: "pw-" + e.user}) != 0 {
+						rep.Violate(vk.Violation{Sig: "c17-configured-user-refused", Msg: fmt.Sprintf("file %v: %s was refused", lines, e.user), Replay: p})
+						return
+					}
+					clients[e.user] = c
+					w.Step()
+				}
+				for _, e := range entries {
+					if e.user == "d1" {
+						continue // d2 shares its mount point and its client identifier: a legitimate take-over
+					}
+					clients[e.user].Ping()
+					w.Step()
+					if clients[e.user].BrokerClosed() || clients[e.user].Count("PINGRESP") != 1 {
+						rep.Violate(vk.Violation{Sig: "c17-same-client-id-across-mount-points", Msg: fmt.Sprintf("file %v: %s's session was ended although the other users of its client identifier live in other mount points (or are listed as sharing its own)", lines, e.user), Replay: p})
+						return
+					}
+				}
+				_ = clients
+			})
+			// second world: distinct client identifiers (users sharing the default mount point would displace each other otherwise)
+			RunBubble(t, fmt.Sprintf("p%d-b", i), func(t *testing.T) {
+				w := NewWorld(t, 1)
+				defer w.Close()
+				clients := map[string]*Client{}
+				for _, e := range entries {
+					c := w.NewClient(e.user, 1, AckAll)
+					if c.Connect(ConnectOpts{ClientID: "dev-" + e.user, KeepAlive: 600, User: e.user, Password: "pw-" + e.user}) != 0 {
+						rep.Violate(vk.Violation{Sig: "c17-configured-user-refused", Msg: fmt.Sprintf("file %v: %s was refused", lines, e.user), Replay: p})
+						return
+					}
+					clients[e.user] = c
+					c.Publish("secrets/"+e.user, "retained-of-"+e.user, 0, true, 0)
+					w.Step()
+				}
+				for _, e := range entries {
+					clients[e.user].Subscribe(1, 0, "#")
+					w.Step()
+				}
+				for _, e := range entries {
+					clients[e.user].Publish("news/"+e.user, "live-of-"+e.user, 0, false, 0)
+					w.Step()
+				}
+				w.Idle(2 * time.Second)
+				Observe(w, rep)
+				for _, e := range entries {
+					want := map[string]bool{}
+					for _, o := range entries {
+						if o.mount == e.mount {
+							want["secrets/"+o.user+"|retained-of-"+o.user] = true
+							want["news/"+o.user+"|live-of-"+o.user] = true
+						}
+					}
+					got := map[string]int{}
+					for _, pk := range clients[e.user].Publishes() {
+						got[string(pk.Topic)+"|"+string(pk.Payload)]++
+					}
+					for k := range got {
+						if !want[k] {
+							rep.Violate(vk.Violation{Sig: "c17-credential-file-crossed-mount-points", Msg: fmt.Sprintf("file %v: user %s (mount point %s) received %s, which belongs to another mount point", lines, e.user, e.mount, k), Replay: p})
+							return
+						}
+					}
+					for k := range want {
+						if got[k] != 1 {
+							rep.Violate(vk.Violation{Sig: "c17-credential-file-own-mount-point-incomplete", Msg: fmt.Sprintf("file %v: user %s (mount point %s) received %s %d times, expected once", lines, e.user, e.mount, k, got[k]), Replay: p})
+							return
+						}
+					}
+				}
+				MarkNontrivial(fmt.Sprint(p))
+				rep.Nontrivial++
+				rep.Sample(p)
+			})
+		},
+		func(i int) any { return paths[i] },
+		func(rep *vk.Report) {
+			rep.Rule = "paths = every order of four credentials-file entries (t1 -> m1, t2 -> m2, d1 with two fields, d2 with an empty third field), loaded by the real file handler; all four users connect (first all with one client identifier, then with their own), publish a retained and a live message and subscribe to '#'; each must receive exactly the messages of the users sharing its mount point"
+			rep.Floor("paths", 24, rep.Nontrivial)
 		})
 }
